@@ -54,4 +54,28 @@ def sqlLookupWith (kind : SqlLookupKind) (table : List (Str × Str)) (catalogueT
   | .firstSubstring => lookupFirstSubstring table ty
   | .longestWord => lookupLongestWord table ty
 
+/-- `relational_db.get_rdb_reference_datatype`, query branch: what the translator reads of the loop over the tables of the query -/
+structure RefLoopShape where
+  /-- `if inferred_data_type: break` directly after the lookup, inside the `try` -/
+  breakOnFound : Bool
+  /-- `except: pass` (a table that cannot be asked is skipped) -/
+  exceptPasses : Bool
+  /-- any other `break` / `return` / `continue` in the loop -/
+  otherExits : Bool
+  deriving DecidableEq, Repr
+
+/-- one catalogue answer: an exception, no datatype (`None` / empty), or a datatype -/
+inductive CatAnswer | raises | nothing | datatype (dt : Str)
+  deriving DecidableEq, Repr
+
+/-- the loop as written (`inferred_data_type = ''` before it): the value left in `inferred_data_type`, as `Option` (falsy = `none`;
+    the caller only tests truthiness) -/
+def refDatatypeLoop (ask : Str → CatAnswer) : List Str → Option Str
+  | [] => none
+  | t :: ts =>
+    match ask t with
+    | .datatype dt => some dt                 -- truthy: break
+    | .nothing => refDatatypeLoop ask ts      -- falsy: next table
+    | .raises => refDatatypeLoop ask ts       -- except: pass
+
 end Model
